@@ -489,6 +489,13 @@ func mJSONUnmarshal(ex *Exec, c *callCtx) Value {
 	if !ok {
 		panic(unsupported("json.Unmarshal into %s", it.Typ))
 	}
+	if ex.trace {
+		fmt.Printf("UNMARSHAL data alts=%d", len(data.Alts))
+		for _, a := range data.Alts {
+			fmt.Printf(" [%s]", a.C.Pretty(2))
+		}
+		fmt.Println()
+	}
 	bad := data.IsNilTerm() // empty input is a syntax error
 	for _, a := range data.Alts {
 		bt, ok := a.Tgt.(BoxT)
@@ -516,7 +523,7 @@ func mJSONUnmarshal(ex *Exec, c *callCtx) Value {
 				continue
 			}
 			if val == nil {
-				val = MergeV(a.C, v, StrLit(""))
+				val = v // the "no alternative" case is a syntax error: nothing is stored then
 			} else {
 				val = MergeV(a.C, v, val)
 			}
@@ -534,6 +541,9 @@ func mJSONUnmarshal(ex *Exec, c *callCtx) Value {
 		for _, pa := range ptr.Alts {
 			at := pa.Tgt.(AddrT)
 			cnd := And(c.guard, pa.C, Not(bad), Or(pres...))
+			if at.Obj.allocG == cnd {
+				cnd = True
+			}
 			at.Obj.val = setPath(at.Obj.val, extendPath(at.P, i), func(old Value) Value { return MergeV(cnd, val, old) })
 		}
 	}
@@ -613,6 +623,8 @@ func (ex *Exec) swapCells(arr *Object, i, j int, c *Term) {
 	copy(ne, e)
 	ne[i] = MergeV(c, e[j], e[i])
 	ne[j] = MergeV(c, e[i], e[j])
+	arr.markDirty(i)
+	arr.markDirty(j)
 	arr.val = ArrayV{E: ne}
 }
 
